@@ -27,7 +27,7 @@ def floors(tier):
     q = tier == "quick"
     return {"streams": 60000 if q else 1500000, "roundtrip.children_nonempty": 50000, "roundtrip.children_empty": 1000, "roundtrip.attrs_int": 2000,
             "roundtrip.meta_nonempty": 2000, "roundtrip.hidden": 5000, "roundtrip.image_with_children": 3000, "tree.nodes": 500000, "rendered_twice": 60000,
-            "roundtrip.children_false_with_children": 30000, "roundtrip.restored_then_mutated": 20000, "rendered_decorated": 60000}
+            "roundtrip.children_false_with_children": 30000, "roundtrip.restored_then_mutated": 20000, "rendered_decorated": 60000, "tree.inner_walks": 50000, "tree.without_root": 50000}
 
 
 def check_stream(ctx, md, toks, env, count=True):
@@ -149,6 +149,44 @@ def check_stream(ctx, md, toks, env, count=True):
             if k.parent is not root:
                 errs.append(("tree-links", "top-level node's parent is not the root"))
                 break
+    # --- a walk started at an inner node covers exactly that node's subtree; a tree built without the artificial root flattens back ---
+    if root is not None:
+        def subtree(nd):
+            out = [nd]
+            for c in nd.children:
+                out += subtree(c)
+            return out
+        allnodes = list(root.walk(include_self=False))
+        for nd in allnodes[:: max(1, len(allnodes) // 12)][:14]:
+            got = list(nd.walk(include_self=True))
+            want_nodes = subtree(nd)
+            if len(got) != len(want_nodes) or any(a is not b for a, b in zip(got, want_nodes)):
+                errs.append(("tree-walk-from-inner-node", f"walk() started at a {nd.type} node yields {[g.type for g in got][:10]} ({len(got)} nodes), its subtree is {[w.type for w in want_nodes][:10]} ({len(want_nodes)} nodes)"))
+                break
+            if list(nd.walk(include_self=False)) != want_nodes[1:]:
+                errs.append(("tree-walk-from-inner-node", f"walk(include_self=False) started at a {nd.type} node does not yield its descendants"))
+                break
+        cnt("tree.inner_walks")
+        # first top-level group (one unnested token, or an _open ... _close run) as a tree of its own
+        if toks:
+            end = 0
+            depth = 0
+            for i, t in enumerate(toks):
+                depth += t.nesting
+                if depth == 0:
+                    end = i
+                    break
+            group = toks[: end + 1]
+            try:
+                sub_root = SyntaxTreeNode(group, create_root=False)
+                flat2 = sub_root.to_tokens()
+                cnt("tree.without_root")
+                if len(flat2) != len(group) or any(a is not b for a, b in zip(flat2, group)):
+                    errs.append(("tree-to_tokens:create_root=False", f"to_tokens() of a tree built without root returned {[t.type for t in flat2][:8]} for {[t.type for t in group][:8]}"))
+                elif sub_root.is_root or sub_root.type == "root":
+                    errs.append(("tree-to_tokens:create_root=False", f"top node of a tree built without root claims to be the root (type {sub_root.type!r})"))
+            except Exception as e:
+                errs.append(("tree-construction:create_root=False", f"{type(e).__name__}: {e}"))
     # --- nodes handed out by the tree stay linked after the caller dropped the root ---------------------------------
     if root is not None and (not count or ctx.counters["streams"] % 8 == 0):
         import gc
